@@ -462,79 +462,84 @@ PARSE_SOURCES: list[tuple[str, str]] = [
 ]
 
 
-def stream_parse(ctx: Ctx) -> Stream:
-	from rogw.tranp.app.app import App
-	from rogw.tranp.app.dir import tranp_dir
-	from rogw.tranp.app.env import SourceEnvPath
-	from rogw.tranp.lang.annotation import duck_typed
-	from rogw.tranp.lang.module import to_fullyname
-	from rogw.tranp.syntax.ast.parser import SourceProvider, SyntaxParser
+class ParseRig:
+	"""A real App whose SourceProvider is a table (module path -> text | exception to raise) and whose source path contains a temp project."""
 
-	rng = ctx.sub_rng('parse')
-	root = ctx.tmpdir()
-	proj = os.path.join(root, 'proj')
-	os.makedirs(os.path.join(proj, 'pz'))
-	table: dict[str, Any] = {}  # module path -> str source | BaseException to raise
+	def __init__(self, ctx: Ctx) -> None:
+		from rogw.tranp.app.dir import tranp_dir
+		from rogw.tranp.app.env import SourceEnvPath
+		from rogw.tranp.lang.annotation import duck_typed
+		from rogw.tranp.lang.module import to_fullyname
+		from rogw.tranp.syntax.ast.parser import SourceProvider, SyntaxParser
+		self.root = ctx.tmpdir()
+		self.proj = os.path.join(self.root, 'proj')
+		os.makedirs(os.path.join(self.proj, 'pz'))
+		self.table: dict[str, Any] = {}
+		self.n = 0
+		table = self.table
 
-	@duck_typed(SourceProvider)
-	def provider(module_path: str) -> str:
-		v = table[module_path]
-		if isinstance(v, BaseException):
-			raise v
-		return v
+		@duck_typed(SourceProvider)
+		def provider(module_path: str) -> str:
+			v = table[module_path]
+			if isinstance(v, BaseException):
+				raise v
+			return v
 
-	def new_app() -> Any:
-		defs = common.tranp_definitions(os.path.join(root, 'cache'), {
+		self._defs = lambda: common.tranp_definitions(os.path.join(self.root, 'cache'), {
 			to_fullyname(SourceProvider): lambda: provider,
-			to_fullyname(SourceEnvPath): lambda: SourceEnvPath([proj, tranp_dir(), os.path.join(tranp_dir(), 'rogw/tranp/compatible/libralies')]),
+			to_fullyname(SourceEnvPath): lambda: SourceEnvPath([self.proj, tranp_dir(), os.path.join(tranp_dir(), 'rogw/tranp/compatible/libralies')]),
 		})
-		return App(defs)
+		self._SyntaxParser = SyntaxParser
+		self.parser = self.new_parser()
+		self.lark_parser = self.parser.dirty_get_origin()
 
-	app = new_app()
-	parser = app.resolve(SyntaxParser)
-	lark_parser = parser.dirty_get_origin()
-	classes = exception_classes()
-	cases = []
-	n = [0]
+	def new_parser(self) -> Any:
+		from rogw.tranp.app.app import App
+		return App(self._defs()).resolve(self._SyntaxParser)
 
-	def raw_outcome(v: Any) -> tuple[str, BaseException | None]:
+	def raw_outcome(self, v: Any) -> str:
 		"""what `parser.parse(self.__source_provider(module_path))` does, observed on lark itself"""
 		if isinstance(v, BaseException):
-			return exc_spec(v), v
+			return exc_spec(v)
 		try:
-			lark_parser.parse(v)
-			return 'ok', None
+			self.lark_parser.parse(v)
+			return 'ok'
 		except BaseException as e:  # noqa: BLE001
-			return exc_spec(e), e
+			return exc_spec(e)
+
+	def new_module(self, v: Any, branch: str) -> str:
+		self.n += 1
+		mod = f'pz.m{self.n}'
+		if branch == 'disk':
+			with open(os.path.join(self.proj, 'pz', f'm{self.n}.py'), 'wb') as f:
+				f.write(v.encode('utf-8') if isinstance(v, str) else b'# provider raises\n')
+		self.table[mod] = v
+		return mod
+
+	def load(self, mod: str, parser: Any = None) -> BaseException | None:
+		try:
+			(parser or self.parser)(mod)
+			return None
+		except BaseException as e:  # noqa: BLE001 - the escaping class is the observation
+			return e
+
+
+def stream_parse(ctx: Ctx) -> Stream:
+	rng = ctx.sub_rng('parse')
+	rig = ParseRig(ctx)
+	classes = exception_classes()
+	cases = []
 
 	def one(kind: str, v: Any, branch: str, again: Any = None) -> None:
-		n[0] += 1
-		mod = f'pz.m{n[0]}'
-		if branch == 'disk':
-			with open(os.path.join(proj, 'pz', f'm{n[0]}.py'), 'wb') as f:
-				f.write(v.encode('utf-8') if isinstance(v, str) else b'# provider raises\n')
-		table[mod] = v
-		raw, _ = raw_outcome(v)
-		ops = [f'parse\t{branch}\t0\t{raw}']
-		real = []
-		caught: BaseException | None = None
-		try:
-			parser(mod)
-		except BaseException as e:  # noqa: BLE001
-			caught = e
-		real.append(outcome_of(caught))
+		mod = rig.new_module(v, branch)
+		ops = [f'parse\t{branch}\t0\t{rig.raw_outcome(v)}']
+		caught = rig.load(mod)
+		real = [outcome_of(caught)]
 		if again is not None and branch == 'disk' and caught is None:
-			# second load of a module whose tree is now cached: the source is not parsed at all (provider would raise)
-			table[mod] = again
-			raw2, _ = raw_outcome(again)
-			ops.append(f'parse\tdisk\t1\t{raw2}')
-			caught2: BaseException | None = None
-			try:
-				app2 = new_app()
-				app2.resolve(SyntaxParser)(mod)
-			except BaseException as e:  # noqa: BLE001
-				caught2 = e
-			real.append(outcome_of(caught2))
+			# second load of a module whose tree is now cached: the source is not parsed at all (the provider would raise)
+			rig.table[mod] = again
+			ops.append(f'parse\tdisk\t1\t{rig.raw_outcome(again)}')
+			real.append(outcome_of(rig.load(mod, rig.new_parser())))
 		cases.append(({'kind': kind, 'branch': branch}, ops, real))
 
 	for kind, src in PARSE_SOURCES:
@@ -571,56 +576,61 @@ class _BadStr:
 	def __init__(self, exc: BaseException) -> None:
 		self.exc = exc
 
+	def __repr__(self) -> str:
+		return f'<unprintable {type(self.exc).__name__}>'
+
 	def __str__(self) -> str:
 		raise self.exc
 
 
-def stream_loop(ctx: Ctx) -> Stream:
-	import rogw.tranp.bin.transpile as tr
-	from rogw.tranp.app.app import App
-	from rogw.tranp.lang.locator import Locator
+class LoopRig:
+	"""The real bin/transpile.py Interactive on a real TranspileApp DI container, driven by a scripted tty."""
 
-	rng = ctx.sub_rng('loop')
-	root = ctx.tmpdir()
-	cfg = os.path.join(root, 'config.yml')
-	repo = common.REPO
-	with open(cfg, 'w', encoding='utf-8') as f:
-		f.write('\n'.join([
-			f'grammar: {repo}/data/grammar.lark',
-			'template_dirs:', f'  - {repo}/data/cpp/template',
-			f'trans_mapping: {repo}/data/i18n.yml',
-			'input_globs:', '  - example/json.py',  # never loaded by Interactive; the list only has to be non-empty
-			'output_dirs:', f'  - {root}/out/',
-			'output_language: cpp:h',
-			'exclude_patterns: []',
-			'env:', '  transpiler: {}', '  view:', '    immutable_param_types: []', '',
-		]))
-	from rogw.tranp.cache.cache import CacheSetting
-	from rogw.tranp.lang.module import to_fullyname
-	defs = tr.TranspileApp.definitions(tr.Args(['-c', cfg, '-it']))
-	defs[to_fullyname(CacheSetting)] = lambda: CacheSetting(basedir=os.path.join(root, 'cache'))
-	app = App(defs)
-	inter = tr.Interactive(app.resolve(Locator))
-	real_transpiler = inter.transpiler
-	classes = exception_classes()
-	Errors = _errors()
+	def __init__(self, ctx: Ctx) -> None:
+		import rogw.tranp.bin.transpile as tr
+		from rogw.tranp.app.app import App
+		from rogw.tranp.cache.cache import CacheSetting
+		from rogw.tranp.lang.locator import Locator
+		from rogw.tranp.lang.module import to_fullyname
+		self.tr = tr
+		root = ctx.tmpdir()
+		cfg = os.path.join(root, 'config.yml')
+		repo = common.REPO
+		with open(cfg, 'w', encoding='utf-8') as f:
+			f.write('\n'.join([
+				f'grammar: {repo}/data/grammar.lark',
+				'template_dirs:', f'  - {repo}/data/cpp/template',
+				f'trans_mapping: {repo}/data/i18n.yml',
+				'input_globs:', f'  - {repo}/example/json.py',  # never loaded by Interactive; the list only has to be non-empty
+				'output_dirs:', f'  - {root}/out/',
+				'output_language: cpp:h',
+				'exclude_patterns: []',
+				'env:', '  transpiler: {}', '  view:', '    immutable_param_types: []', '',
+			]))
+		defs = tr.TranspileApp.definitions(tr.Args(['-c', cfg, '-it']))
+		defs[to_fullyname(CacheSetting)] = lambda: CacheSetting(basedir=os.path.join(root, 'cache'))
+		self.inter = tr.Interactive(App(defs).resolve(Locator))
+		self.real_transpiler = self.inter.transpiler
+		rig = self
 
-	class Stub:
-		"""replaces the transpiler for scripted outcomes (Interactive.transpiler is a public attribute)"""
+		class Stub:
+			"""replaces the transpiler for scripted outcomes (Interactive.transpiler is a public attribute)"""
 
-		def __init__(self) -> None:
-			self.plan: list[Any] = []
+			def __init__(self) -> None:
+				self.plan: list[Any] = []
 
-		def transpile(self, entrypoint: Any) -> str:
-			v = self.plan.pop(0)
-			if isinstance(v, BaseException):
-				raise v
-			return 'ok'
+			def transpile(self, entrypoint: Any) -> str:
+				v = self.plan.pop(0)
+				if isinstance(v, BaseException):
+					raise v
+				return 'ok'
 
-	stub = Stub()
+		self.stub = Stub()
+		_ = rig
 
-	def run_script(script: list[tuple[str, Any]]) -> str:
-		"""script items: ('exit',) | ('interrupt',) | ('stub', exc|None) | ('src', text)"""
+	def run_script(self, script: list[tuple[str, Any]]) -> str:
+		"""script items: ('exit',) | ('interrupt',) | ('stub', exc|None) | ('src', text) → '<running|quit|died X> <inputs consumed>'"""
+		tr, inter, stub = self.tr, self.inter, self.stub
 		feed = list(script)
 		consumed = [0]
 
@@ -637,34 +647,47 @@ def stream_loop(ctx: Ctx) -> Stream:
 				inter.transpiler = stub
 				stub.plan = [item[1]]
 				return ['pass']
-			inter.transpiler = real_transpiler
+			inter.transpiler = self.real_transpiler
 			return item[1].split('\n')
 
 		old = tr.tty
 		tr.tty = fake_tty  # type: ignore[assignment]
-		out = io.StringIO()
 		status = ''
 		try:
-			with contextlib.redirect_stdout(out):
+			with contextlib.redirect_stdout(io.StringIO()):
 				inter.run()
 			status = 'quit'
 		except _Exhausted:
 			status = 'running'
-			consumed[0] += 0
 		except BaseException as e:  # noqa: BLE001
 			status = f'died {display(type(e))}'
 		finally:
 			tr.tty = old  # type: ignore[assignment]
 		return f'{status} {consumed[0]}'
 
+
+def stream_loop(ctx: Ctx) -> Stream:
+	rng = ctx.sub_rng('loop')
+	rig = LoopRig(ctx)
+	run_script = rig.run_script
+	classes = exception_classes()
+	Errors = _errors()
+
 	def render_of(exc: BaseException | None) -> str:
-		"""what print(ErrorRender(e)) does for a scripted exception — decided by its arguments (a _BadStr argument raises)"""
-		if exc is None:
+		"""what `print(ErrorRender(e))` does for a scripted exception: observed on ErrorRender itself (the loop model takes it as input)"""
+		from rogw.tranp.view.error_render import ErrorRender
+		if exc is None or not isinstance(exc, Errors.Error):
 			return 'ok'
-		for a in exc.args:
-			if isinstance(a, _BadStr):
-				return exc_spec(a.exc)
-		return 'ok'
+		try:
+			try:
+				raise exc
+			except BaseException as e:  # noqa: BLE001
+				str(ErrorRender(e))  # type: ignore[arg-type]
+			return 'ok'
+		except BaseException as e2:  # noqa: BLE001
+			return exc_spec(e2)
+		finally:
+			exc.__traceback__ = None
 
 	cases = []
 
@@ -697,7 +720,6 @@ def stream_loop(ctx: Ctx) -> Stream:
 	probe = pl.Pipeline('in-memory', ctx.tmpdir())
 	real_sources = ['a: int = 1', 'def f(x: int) -> int:\n\treturn x', 'x = y', 'a = = 1', 'def f(:', 'a = $', 'if a:\n        x = 1\n    y = 2',
 		'from nowhere.nothing import X', 'class A:\n\tdef f(self) -> int:\n\t\treturn self.z', 'def f() -> None:\n\tfor i in 3:\n\t\tpass']
-	lark_mod = __import__('lark')
 
 	def src_item(src: str) -> tuple[tuple[str, Any], str]:
 		o = probe.run(src + '\n')
@@ -727,7 +749,6 @@ def stream_loop(ctx: Ctx) -> Stream:
 			toks.append('exit')
 		add('mixed', script, toks)
 	probe.close()
-	_ = lark_mod
 	st = common.correspond('errors-loop', cases, 'errors', classify=lambda d: d['kind'])
 	st.note = ('the real Interactive.run driven by a scripted tty (bin/transpile.tty patched in the harness process, no repo change): every exception class raised '
 		'by a stub transpiler, unprintable error arguments (render failure), KeyboardInterrupt at the prompt, and real sources through the real pipeline '
@@ -773,9 +794,10 @@ def stream_render(ctx: Ctx) -> Stream:
 				args.append(TextObj(s))
 				toks.append(f'o:{hx(s)}')
 			else:
-				inner = rng.choice([KeyError('k'), IndexError('i'), Errors.Logic('l'), AttributeError('a')])
-				args.append(_BadStr(inner))
-				toks.append(f'x:{exc_spec(inner)}')
+				inner = rng.choice([KeyError('k'), IndexError('i'), Errors.Logic('l'), AttributeError('a'), KeyboardInterrupt(), user_class('MyBase', (BaseException,))('b')])
+				bad = _BadStr(inner)
+				args.append(bad)
+				toks.append(f'x:{hx(repr(bad))}:{exc_spec(inner)}')
 		e = rng.choice([Errors.Fatal, Errors.Logic, KeyError, Errors.Syntax])(*args)
 		try:
 			real = 'ok ' + hx(ErrorRender(e)._ErrorRender__build_message())
@@ -890,6 +912,9 @@ def minimise(p: pl.Pipeline, data: str | bytes, key: str, budget: int = 60) -> s
 	toks = gen.tokens_of(text)
 	i = 0
 	while i < len(toks) and runs[0] < budget + 40 and len(toks) < 80:
+		if toks[i].strip(' ') == '':
+			i += 1
+			continue
 		cand = toks[:i] + toks[i + 1:]
 		if cand and still(''.join(cand)):
 			toks = cand
@@ -929,22 +954,24 @@ def fuzz_inputs(ctx: Ctx) -> list[tuple[str, str, str | bytes]]:
 			out.append(('seed', m, s))
 	for i, s in enumerate(chunks):
 		out.append(('seed-chunk', both[i % 2], s))
-	for i, s in enumerate(gen.ILL_TYPED_TEMPLATES):
-		out.append(('ill-typed', both[i % 2], s))
-		if ctx.thorough:
-			out.append(('ill-typed', both[(i + 1) % 2], s))
+	for s in gen.ILL_TYPED_TEMPLATES:
+		# both modes: an on-disk load also stores the symbol table (StoreSymbols), which forces every lazy type resolution outside any
+		# Procedure — the same text can be an Errors.* in memory and a raw exception on disk
+		for m in both:
+			out.append(('ill-typed', m, s))
 	for i, s in enumerate(DEEP_NESTING):
 		out.append(('deep-nesting', both[i % 2], s))
 	if ctx.thorough:
 		for name, s in gen.large_sources():
 			out.append(('seed-large', 'in-memory', s))
-	n = ctx.scale(2200, 40000)
+	n = ctx.scale(2600, 40000)
 	big = [s for _, s in gen.large_sources()] if ctx.thorough else []
+	chunk_share = 0.10 if ctx.thorough else 0.03  # a chunk costs ~0.2 s per run, a small seed ~0.02 s
 	for i in range(n):
 		m = both[i % 2]
 		r = rng.random()
 		pick = rng.random()
-		base = rng.choice(seeds) if pick < 0.8 else (rng.choice(chunks) if pick < 0.985 or not big else rng.choice(big))
+		base = rng.choice(seeds) if pick >= chunk_share else (rng.choice(chunks) if pick >= 0.002 or not big else rng.choice(big))
 		if r < 0.18:
 			out.append(('byte-mutation', m, gen.mutate_bytes(rng, base.encode('utf-8'))))
 		elif r < 0.50:
@@ -974,7 +1001,7 @@ def search_fuzz(ctx: Ctx) -> SearchResult:
 	seen: set[int] = set()
 	quoted = 0
 	t0 = time.time()
-	budget_s = ctx.scale(100, 1500)
+	budget_s = ctx.scale(240, 3000)  # safety net only: the plan is sized to finish well inside it (a cut would make the key set machine dependent)
 	for kind, mode, data in inputs:
 		if time.time() - t0 > budget_s:
 			ctx.notes.append(f'fuzz stopped by the time budget after {res.cases} of {len(inputs)} inputs')
@@ -1012,6 +1039,7 @@ def search_fuzz(ctx: Ctx) -> SearchResult:
 			continue
 		what = f'{conf.cls or "render"}: {(conf.message or conf.render_message)[:100]} — input kind {kind}, {mode}; minimal input {_as_text(small)[:160]!r}'
 		res.findings.append(Finding(key=k, what=what, replay=_replay_payload(mode, small, conf)))
+		ctx.notes.append(f'finding key={k} | {what}')
 	for p in pipes.values():
 		p.close()
 	res.distinct = len(seen)
@@ -1040,6 +1068,93 @@ def search_f3_replay(ctx: Ctx) -> SearchResult:
 		p.close()
 	_ = Errors
 	res.distinct = res.cases
+	return res
+
+
+# ---------------------------------------------------------------------------------------------
+# search: the sentences of the property on the real Procedure / parser / Interactive (no model involved)
+
+
+def search_laws(ctx: Ctx) -> SearchResult:
+	"""The property statement itself, evaluated on the real code with injected exception classes:
+
+	* Procedure: whatever class a handler raises, exec ends ok / with an Errors.Error / with the same non-Exception object;
+	* parser: every Exception raised while reading or parsing becomes Errors.Syntax — on disk for every injected class, in both
+	  branches for crafted unparsable texts (the in-memory escapes are the F3 keys);
+	* Interactive: after an outcome in {ok} ∪ Errors.Error the loop asks for the next input.
+	"""
+	Errors = _errors()
+	res = SearchResult('laws on the real code: Procedure normalises handler exceptions; parser branches report Errors.Syntax; Interactive survives Errors.Error')
+	rng = ctx.sub_rng('laws')
+	hist: Counter[str] = Counter()
+	classes = [c for c in exception_classes() if ctor1_of(c)]
+	FakeNode = _fake_node_base()
+	ev_ok = {'handler': 'own', 'props': [], 'behave': ('ok',)}
+	# -- Procedure
+	plans = []
+	for cls in classes:
+		for arg0 in ('none', 'node', 'other'):
+			plans.append(('own', cls, {'procedural': None, 'fallback': False, 'events': [{'handler': 'own', 'props': [], 'behave': ('raise', cls, arg0)}]}))
+			plans.append(('fallback', cls, {'procedural': None, 'fallback': True, 'events': [ev_ok, {'handler': 'fallback', 'props': [('s',)], 'behave': ('raise', cls, arg0)}]}))
+			plans.append(('next', cls, {'procedural': None, 'fallback': False, 'events': [ev_ok, ev_ok, {'handler': 'own', 'props': [('l', 2)], 'behave': ('next', cls, arg0)}]}))
+	for _ in range(ctx.scale(100, 1500)):
+		n = rng.randint(1, 5)
+		events = [{'handler': 'own', 'props': [('s',)] if i else [], 'behave': ('ok',)} for i in range(n)]
+		k = rng.randrange(n)
+		cls = rng.choice(classes)
+		events[k]['behave'] = (rng.choice(['raise', 'next']), cls, rng.choice(['none', 'node', 'other']))
+		plans.append(('random', cls, {'procedural': None, 'fallback': rng.random() < 0.5, 'events': events}))
+	for stage, cls, plan in plans:
+		res.cases += 1
+		try:
+			_, ops, real = proc_case(rng, FakeNode, plan)
+		except BaseException as e:  # noqa: BLE001
+			res.findings.append(Finding(key=f'proc-law-crash:{pl.class_name(e)}', what=f'building/running the test Procedure raised {e!r}', replay={'plan': str(plan)}))
+			continue
+		out = real[0]
+		hist[f'proc/{out.split(" ")[0]}' + ('/E' if ' E ' in out else '')] += 1
+		ok = out == 'ok' or ' E ' in out or (not issubclass(cls, Exception) and out.startswith(f'raise {display(cls)} '))
+		if not ok:
+			res.findings.append(Finding(key=f'proc:{out.split(" ")[1]}@{stage}', what=f'Procedure.exec let {out} escape for a handler raising {display(cls)} ({stage})', replay={'op': ops[0], 'real': out}))
+	# -- parser
+	rig = ParseRig(ctx)
+	for cls in exception_classes():
+		if not issubclass(cls, Exception):
+			continue
+		for arg0 in ('none', 'other'):
+			exc = make_exception(cls, arg0, None)
+			if exc is None:
+				continue
+			res.cases += 1
+			caught = rig.load(rig.new_module(exc, 'disk'))
+			hist[f'parse-disk/{display(type(caught)) if caught else "ok"}'] += 1
+			if not isinstance(caught, Errors.Syntax):
+				res.findings.append(Finding(key=f'parse-disk:{display(type(caught)) if caught else "ok"}', what=f'on-disk branch: {display(cls)} raised while reading/parsing came out as {outcome_of(caught)}', replay={'class': display(cls)}))
+	for kind, src in PARSE_SOURCES:
+		for branch, mode in (('mem', 'in-memory'), ('disk', 'on-disk')):
+			res.cases += 1
+			caught = rig.load(rig.new_module(src, branch))
+			hist[f'parse-{branch}/{display(type(caught)) if caught else "ok"}'] += 1
+			if caught is not None and not isinstance(caught, Errors.Syntax):
+				key = pl.escape_key(caught, mode) if not isinstance(caught, Errors.Error) else f'parse-{branch}:{display(type(caught))}'
+				res.findings.append(Finding(key=key, what=f'{mode} branch: unparsable text ({kind}) {src!r} came out as {outcome_of(caught)}, not Errors.Syntax',
+					replay={'mode': mode, 'source': src, 'class': pl.class_name(caught), 'tranp_frames': pl.tranp_frames(caught)}))
+	# -- Interactive
+	loop = LoopRig(ctx)
+	for cls in exception_classes():
+		if not issubclass(cls, Errors.Error) or not ctor1_of(cls):
+			continue
+		for arg0 in ('none', 'other'):
+			exc = make_exception(cls, arg0, None)
+			if exc is None:
+				continue
+			res.cases += 1
+			out = loop.run_script([('stub', exc), ('stub', None), ('stub', exc)])
+			hist[f'loop/{out}'] += 1
+			if out != 'running 3':
+				res.findings.append(Finding(key=f'loop:{display(cls)}', what=f'Interactive.run did not survive {display(cls)}: {out}', replay={'class': display(cls), 'status': out}))
+	res.distinct = res.cases
+	res.histogram = dict(sorted(hist.items()))
 	return res
 
 
@@ -1076,7 +1191,7 @@ def run(ctx: Ctx) -> int:
 		with ctx.timed('correspondence'):
 			streams = [stream_hierarchy(ctx), stream_proc(ctx), stream_parse(ctx), stream_loop(ctx), stream_render(ctx)]
 	with ctx.timed('search'):
-		searches = [search_f3_replay(ctx), search_fuzz(ctx)]
+		searches = [search_f3_replay(ctx), search_laws(ctx), search_fuzz(ctx)]
 	wrapped = bool(ctx.generated_tables and ctx.generated_tables[0].get('mem_branch_wrapped'))
 	ctx.notes.append('in-memory parser branch on this tree: ' + ('wrapped (parse_mem_fixed applies)' if wrapped else 'NOT wrapped (parse_mem_counterexample applies; F3)'))
 	return common.finish(ctx, proof, streams, searches,
